@@ -1139,3 +1139,16 @@ ASSUMPTIONS = [
     'KeyboardInterrupt is delivered only at blocking waits of the user thread',
     'set iteration order of id-hashed objects fixed to creation order',
 ]
+
+
+def body_protocol_conformance(cov):
+    """Re-record the request-body protocol from the real botocore client and compare
+    it with what the fake client does; a mismatch means the environment model no
+    longer matches the installed botocore: harness error, never a verdict."""
+    from ..env import botoproto
+    n, mism, protos = botoproto.conformance()
+    cov['body_protocols_recorded_from_botocore'] = n
+    cov['body_protocol_sample'] = {k: [list(x) for x in v] for k, v in list(protos.items())[:2]}
+    if mism:
+        raise detsched.HarnessError(f'fake client body protocol differs from real botocore: {mism[0]}')
+    cov['traces_validated_against_impl'] = cov.get('traces_validated_against_impl', 0) + n
